@@ -294,6 +294,30 @@ def run(ctx):
                         cl2 = suds.client.Client("suds://main2.wsdl", documentStore=store, cache=None)
                         return str(cl) + str(cl2)
 
+                    def ep_send_only_transport(schema=schema):
+                        # a transport that can only send: documents it cannot open are not fetched some other way
+                        main = wsdlkit.wsdl_doc('<xsd:import namespace="urn:inc" schemaLocation="http://127.0.0.1:9/%s.xsd"/>'
+                                                % MARK + schema, "f", "fResponse")
+
+                        class SendOnly(suds.transport.Transport):
+                            def send(self, request):
+                                return None
+                        store = suds.store.DocumentStore()
+                        store.update({"main.wsdl": main})
+                        try:
+                            cl = suds.client.Client("suds://main.wsdl", documentStore=store, transport=SendOnly(), cache=None)
+                            return str(cl)
+                        except Exception as e:
+                            return type(e).__name__
+
+                    def ep_application_parser(reply=reply, c=c):
+                        # the application uses the parser factory for a trusted document of its own and switches
+                        # external entities on THERE: documents suds parses afterwards are not affected
+                        from xml.sax.handler import feature_external_ges
+                        p, _h = Parser.saxparser()
+                        p.setFeature(feature_external_ges, 1)
+                        return str(c.service.f("x", __inject={"reply": reply})) + Parser().parse(string=reply).root().plain()
+
                     def ep_huge_reply(c=c):
                         # size does not change how a reply is parsed: no spill to disk
                         big = ('<e:Envelope xmlns:e="%s"><e:Body><fResponse xmlns="%s"><r>%s</r></fResponse></e:Body>'
@@ -304,6 +328,9 @@ def run(ctx):
                         name in ("none", "internal-only") else []
                     if rep == 0:
                         extra.append(("mutable-content", ep_mutable_content))
+                        extra.append(("application-parser", ep_application_parser))
+                    if rep == 0 and name in ("none", "internal-only"):
+                        extra.append(("send-only-transport", ep_send_only_transport))
                     entry_points = extra + [("error-path", ep_error_path), ("import-url", ep_import_url),
                                     ("inject", ep_inject), ("transport", ep_transport), ("reqctx", ep_reqctx),
                                     ("parser", ep_parser), ("wsdl", ep_wsdl), ("import", ep_import), ("cache", ep_cache)]
